@@ -26,6 +26,9 @@ RULE = (
     "char for char, module compiles without warning; non-trivial = falsy or invalid default, or "
     "description needing escaping; distinct = canon(schema)"
 )
+RULE += (
+    ' Plain cases go through the documented loader a quarter of the time.'
+)
 ASSUMPTIONS = [
     "defaults are compared with type identity (true/1/1.0 are all different)",
     "a default and its composition parent are one node in statham's normal form when the composition has a single branch; the multiset comparison ignores location for that reason",
@@ -138,7 +141,8 @@ def cases(draw):
         if draw(st.booleans()):
             schema["description"] = draw(descriptions)
         path = [outer_name, name]
-    return {"kind": kind, "where": where, "schema": schema, "path": path}
+    return {"kind": kind, "where": where, "schema": schema, "path": path,
+            "pipeline": draw(st.sampled_from(observe.PIPELINES))}
 
 
 @st.composite
@@ -272,7 +276,7 @@ def predicate(case, stats):
         return shared_predicate(case, stats)
     schema = case["schema"]
     fails = []
-    parsed = observe.safe_parse(schema)
+    parsed = observe.safe_parse(schema, case.get("pipeline"))
     if parsed[0] != "ok":
         stats.case(canon(schema), False, ["parse:" + parsed[0]])
         return [{"sub": "parse", "kind": "parse-refused:" + parsed[1], "detail": list(parsed)}]
